@@ -224,6 +224,9 @@ def c04Model (i : Input) (win : List Int) (stale : List (String × (Name → Opt
           let r := histModel p (tablesOf i.T cs) calls
           r.2 ++ againModel p r.1 win)
       ++ stale.map (fun (l, cur) => (s!"stale:{l}", if guardOK i.kind cs cur then "accepted" else "rejected"))
+      -- the compiler's first complaint in the guard function (a model-only line: the tie of the guard's arithmetic)
+      ++ stale.map (fun (l, cur) => (s!"staleErr:{l}", match guardFirst i.kind cs cur with
+          | .none => "none" | .undefined => "undefined" | .overflows => "overflows" | .negative => "negative" | .bounds => "bounds"))
 
 def c04Spec (i : Input) (win : List Int) (stale : List (String × (Name → Option Int))) (calls : List Call) : List (String × String) :=
   let d := i.decl
